@@ -222,7 +222,9 @@ def evaluate(ctx, cases):
                 more.append(b["ok"])
             else:
                 ctx.violation("the builder must accept pointer objects and keyword arguments as it accepts text", {**inp, "builder_style": style}, b["err"], "a patch")
-        for mk in (lambda: JSONPatch(io.StringIO(json.dumps(ops))), lambda: JSONPatch(io.BytesIO(json.dumps(ops, ensure_ascii=False).encode("utf-8")))):
+        for mk in (lambda: JSONPatch(io.StringIO(json.dumps(ops))), lambda: JSONPatch(io.BytesIO(json.dumps(ops, ensure_ascii=False).encode("utf-8"))),
+                   # the operations as any iterable of mappings (the documented parameter type): a tuple, a one-shot iterator, a generator
+                   lambda: JSONPatch(tuple(copy.deepcopy(ops))), lambda: JSONPatch(iter(copy.deepcopy(ops))), lambda: JSONPatch(dict(o) for o in copy.deepcopy(ops))):
             b = core.outcome(mk)
             if "ok" in b:
                 more.append(b["ok"])
